@@ -607,6 +607,8 @@ func (p *RegProcessor) processBdReq(c2sPayload *pb.C2SWrapper) (*pb.Registration
 					if randVal < cumulativeWeight {
 						ipNet = p.minOverrideSubnets[i].CIDR.IPNet
 						//dstPortOverride = p.minOverrideSubnets[i].Port
+						// first interval containing randVal; without the break the last subnet always won
+						break
 					}
 				}
 
@@ -642,6 +644,8 @@ func (p *RegProcessor) processBdReq(c2sPayload *pb.C2SWrapper) (*pb.Registration
 							ipNet = p.prefixOverrideSubnets[i].CIDR.IPNet
 							dstPortOverride = p.prefixOverrideSubnets[i].Port
 							prefixid = p.prefixOverrideSubnets[i].PrefixId
+							// first interval containing randVal; without the break the last subnet always won
+							break
 						}
 					}
 
